@@ -82,6 +82,12 @@ func TestVFC04EffectiveSettings(t *testing.T) {
 			ServerName: "dns.vf.test",
 			DHCPMAC:    map[netip.Addr]net.HardwareAddr{},
 		}
+		if rapid.IntRange(0, 3).Draw(t, "no_server_name") == 0 {
+			// no server name in the encryption settings (DoH behind a reverse
+			// proxy): ClientIDs then come in the request path only
+			wc.ServerName = ""
+			vfC04E.Class("effective:no_server_name_configured")
+		}
 		for i, k := range kinds {
 			label := fmt.Sprintf("c%d", i)
 			c := &vfC04Client{
@@ -129,6 +135,9 @@ func TestVFC04EffectiveSettings(t *testing.T) {
 				owner = clients[rapid.IntRange(0, len(clients)-1).Draw(t, label+"_client")]
 				if owner.Kind == "clientid" {
 					q.Proto = proxy.ProtoTLS
+					if wc.ServerName == "" || rapid.IntRange(0, 2).Draw(t, label+"_doh_path") == 0 {
+						q.Proto = proxy.ProtoHTTPS
+					}
 					q.ClientID = "kid-1"
 					q.Addr = netip.AddrPortFrom(vfC04ClientAddr[owner.Kind], 4000)
 				} else {
